@@ -1002,7 +1002,7 @@ func (c *Ctx) ruleTagPairing() {
 				for _, st := range rs.Body.List {
 					if es, ok := st.(*ast.ExprStmt); ok {
 						if call, ok := es.X.(*ast.CallExpr); ok {
-							if cal := callee(pk, call); cal != nil && cal.Name() == "appendTagName" && accessPath(pk, call.Fun.(*ast.SelectorExpr).X) == inPath {
+							if cal := callee(pk, call); cal != nil && c.appendsParamToReceiver(cal) && isSelector(call.Fun) && accessPath(pk, call.Fun.(*ast.SelectorExpr).X) == inPath {
 								appended = true
 							}
 						}
@@ -2334,4 +2334,74 @@ func (c *Ctx) givesAllRules(pk *packages.Package, call *ast.CallExpr, holder fun
 		return true
 	})
 	return ok
+}
+
+
+func isSelector(e ast.Expr) bool { _, ok := ast.Unparen(e).(*ast.SelectorExpr); return ok }
+
+// appendsParamToReceiver: m is a one-parameter method (declared on a type, or on an interface - then every
+// implementation in the library is looked at) whose body appends that parameter to a slice field of the
+// receiver: `recv.F = append(recv.F, p)`. Recognised by what the method does, not by its name.
+func (c *Ctx) appendsParamToReceiver(m *types.Func) bool {
+	sig, _ := m.Type().(*types.Signature)
+	if sig == nil || sig.Recv() == nil || sig.Params().Len() != 1 {
+		return false
+	}
+	var impls []*Fn
+	if types.IsInterface(sig.Recv().Type()) {
+		iface, _ := sig.Recv().Type().Underlying().(*types.Interface)
+		for _, f := range c.libFns() {
+			fs, _ := f.Obj.Type().(*types.Signature)
+			if f.Obj.Name() != m.Name() || fs == nil || fs.Recv() == nil || f.Decl == nil || f.Decl.Body == nil {
+				continue
+			}
+			if iface != nil && (types.Implements(fs.Recv().Type(), iface) || types.Implements(types.NewPointer(derefType(fs.Recv().Type())), iface)) {
+				impls = append(impls, f)
+			}
+		}
+	} else if f := c.fnOf(m); f != nil {
+		impls = append(impls, f)
+	}
+	if len(impls) == 0 {
+		return false
+	}
+	for _, f := range impls {
+		if f.Decl.Recv == nil || len(f.Decl.Recv.List) != 1 || len(f.Decl.Recv.List[0].Names) != 1 || len(f.Decl.Type.Params.List) != 1 || len(f.Decl.Type.Params.List[0].Names) != 1 {
+			return false
+		}
+		recv, par := f.Pkg.TypesInfo.Defs[f.Decl.Recv.List[0].Names[0]], f.Pkg.TypesInfo.Defs[f.Decl.Type.Params.List[0].Names[0]]
+		found := false
+		ast.Inspect(f.Decl.Body, func(n ast.Node) bool {
+			as, ok := n.(*ast.AssignStmt)
+			if !ok || len(as.Lhs) != 1 || len(as.Rhs) != 1 {
+				return true
+			}
+			call, ok := ast.Unparen(as.Rhs[0]).(*ast.CallExpr)
+			if !ok || len(call.Args) != 2 {
+				return true
+			}
+			if id, ok := call.Fun.(*ast.Ident); !ok || id.Name != "append" || f.Pkg.TypesInfo.Uses[id] != types.Universe.Lookup("append") {
+				return true
+			}
+			lsel, ok := ast.Unparen(as.Lhs[0]).(*ast.SelectorExpr)
+			if !ok {
+				return true
+			}
+			lid, ok := ast.Unparen(lsel.X).(*ast.Ident)
+			if !ok || f.Pkg.TypesInfo.Uses[lid] != recv || recv == nil {
+				return true
+			}
+			if types.ExprString(call.Args[0]) != types.ExprString(as.Lhs[0]) {
+				return true
+			}
+			if aid, ok := ast.Unparen(call.Args[1]).(*ast.Ident); ok && par != nil && f.Pkg.TypesInfo.Uses[aid] == par {
+				found = true
+			}
+			return true
+		})
+		if !found {
+			return false
+		}
+	}
+	return true
 }
